@@ -218,7 +218,13 @@ func build(c Case) (adapter, *odict.Dict, *Verdict0) {
 
 type Verdict0 struct{}
 
-func oracle(c Case) *ev.Verdict {
+func oracle(c Case) *ev.Verdict { return oracleN(c, false) }
+
+// oracleSparse compares with the dictionary when the kind of operation changes and at the end
+// (bulk phases of hundreds of steps; the comparison is linear in the universe)
+func oracleSparse(c Case) *ev.Verdict { return oracleN(c, true) }
+
+func oracleN(c Case, sparse bool) *ev.Verdict {
 	if c.Container == "set" {
 		return oracleSet(c)
 	}
@@ -241,6 +247,12 @@ func oracle(c Case) *ev.Verdict {
 		}()
 		if v != nil {
 			return v
+		}
+		if sparse && i+1 < len(c.Ops) && c.Ops[i+1].Op == op.Op {
+			if a.Len() != ref.Len() {
+				return compare(c, i, a, ref)
+			}
+			continue
 		}
 		if v := compare(c, i, a, ref); v != nil {
 			return v
@@ -358,7 +370,7 @@ func compare(c Case, step int, a adapter, ref *odict.Dict) *ev.Verdict {
 	if a.Len() != ref.Len() {
 		return ev.V(sig("len"), "after step %d (%s): Len=%d, dictionary has %d %v", step, last, a.Len(), ref.Len(), ref.Keys)
 	}
-	for _, k := range universe {
+	for _, k := range keysOf(c) {
 		got, ok := a.Get(k)
 		if ok != ref.Has(k) || a.Has(k) != ref.Has(k) || (ok && got != ref.Vals[k]) || a.GetValue(k) != ref.Vals[k] {
 			return ev.V(sig("get"), "after step %d (%s): key %q Get=%q,%v Has=%v GetValue=%q; dictionary %q,%v",
@@ -385,10 +397,15 @@ func compare(c Case, step int, a adapter, ref *odict.Dict) *ev.Verdict {
 	if perr != nil || j.Kind != jsonv.Object {
 		return ev.V(sig("json-invalid"), "after step %d: MarshalJSON gave %s (%v)", step, b, perr)
 	}
-	if strings.Join(j.Keys, "\x00") != strings.Join(ref.Keys, "\x00") {
+	// (encoding/json writes U+FFFD for every byte that is not UTF-8: the only spelling JSON has for such a key)
+	wantKeys := make([]string, len(ref.Keys))
+	for i, k := range ref.Keys {
+		wantKeys[i] = string([]rune(k))
+	}
+	if strings.Join(j.Keys, "\x00") != strings.Join(wantKeys, "\x00") {
 		return ev.V(sig("json-keys"), "after step %d (%s): JSON keys %q, dictionary %q", step, last, j.Keys, ref.Keys)
 	}
-	for i, k := range j.Keys {
+	for i, k := range ref.Keys {
 		var val struct{ Value string }
 		vb := j.Vals[i]
 		if vv := vb.Get("value"); vv != nil {
@@ -420,7 +437,7 @@ func oracleSet(c Case) *ev.Verdict {
 		if s.Len() != ref.Len() {
 			return ev.V("set:"+last+":len", "after step %d: Len=%d, reference %d %v", step, s.Len(), ref.Len(), ref.Keys)
 		}
-		for _, k := range universe {
+		for _, k := range keysOf(c) {
 			if s.Has(k) != ref.Has(k) {
 				return ev.V("set:"+last+":has", "after step %d: Has(%q)=%v", step, k, s.Has(k))
 			}
@@ -444,6 +461,33 @@ func oracleSet(c Case) *ev.Verdict {
 		}
 	}
 	return nil
+}
+
+// keysOf: the universe plus every key the case mentions
+func keysOf(c Case) []string {
+	seen := map[string]bool{}
+	var out []string
+	add := func(k string) {
+		if !seen[k] {
+			seen[k] = true
+			out = append(out, k)
+		}
+	}
+	for _, k := range universe {
+		add(k)
+	}
+	for _, k := range c.Init {
+		add(k)
+	}
+	for _, op := range c.Ops {
+		if op.Op == "set" || op.Op == "update" || op.Op == "delete" || op.Op == "add" {
+			add(op.K)
+		}
+		for _, k := range op.Keep {
+			add(k)
+		}
+	}
+	return out
 }
 
 // ---- generation
@@ -643,7 +687,125 @@ func judged(c Case) *ev.Verdict {
 	return oracle(c)
 }
 
+// hostileKeys: what a property name of a rule object may be - any JSON string
+var hostileKeys = []string{"", " ", "\x00", "\x01", "\x1f", "\a", "\v", "\b", "\f", "\n", "\r", "\t", "\x7f", "\xff", "\xc3", "\xe2\x82", "a\xffb", "\u0080", "\u2028", "\u2029", "\ufffd", "\U000e0001", "\U0001f600", "é", "€", "<", ">", "&", "\\", "/", "'", `"`, `\u0041`, "A", "a ", "ａ", strings.Repeat("k", 300)}
+
+// genWide: large key universes and bulk phases (grow far beyond the usual handful of rules, shrink
+// to a few by Delete / Filter, grow again), and keys that are arbitrary strings
+func genWide(t *rapid.T) Case {
+	cont := rapid.SampledFrom([]string{"rule", "ast", "set"}).Draw(t, "container")
+	c := Case{Container: cont, Ctor: "zero"}
+	n := rapid.SampledFrom([]int{6, 20, 66, 70, 130, 150, 260, 300}).Draw(t, "universe")
+	var keys []string
+	nh := rapid.IntRange(0, 8).Draw(t, "hostile")
+	keys = append(keys, rapid.SliceOfNDistinct(rapid.SampledFrom(hostileKeys), nh, nh, func(s string) string { return s }).Draw(t, "hk")...)
+	for i := len(keys); i < n; i++ {
+		keys = append(keys, fmt.Sprintf("k%03d", i))
+	}
+	perm := func(label string) []string {
+		out := append([]string{}, keys...)
+		if rapid.Bool().Draw(t, label+"shuffled") {
+			for i := len(out) - 1; i > 0; i-- {
+				j := rapid.IntRange(0, i).Draw(t, label)
+				out[i], out[j] = out[j], out[i]
+			}
+		}
+		return out
+	}
+	if cont == "set" {
+		if rapid.Bool().Draw(t, "ctor") {
+			c.Ctor = "new"
+			c.Init = perm("init")[:rapid.IntRange(0, n).Draw(t, "ninit")]
+		}
+		for _, k := range perm("adds") {
+			c.Ops = append(c.Ops, Op{Op: "add", K: k})
+		}
+		return c
+	}
+	if cont == "rule" {
+		c.Ctor = rapid.SampledFrom([]string{"zero", "make", "new"}).Draw(t, "ctor")
+		if c.Ctor == "new" {
+			c.Init = perm("init")[:rapid.IntRange(0, n).Draw(t, "ninit")]
+		}
+	}
+	phases := rapid.IntRange(1, 4).Draw(t, "phases")
+	for ph := 0; ph < phases; ph++ {
+		switch rapid.IntRange(0, 5).Draw(t, "phase") {
+		case 0, 1: // grow
+			for _, k := range perm("grow")[:rapid.IntRange(1, n).Draw(t, "ngrow")] {
+				c.Ops = append(c.Ops, Op{Op: "set", K: k, V: rapid.SampledFrom([]string{"1", "2"}).Draw(t, "v")})
+			}
+		case 2: // shrink by delete, leaving few
+			left := rapid.IntRange(0, 6).Draw(t, "left")
+			for _, k := range perm("del")[left:] {
+				c.Ops = append(c.Ops, Op{Op: "delete", K: k})
+			}
+		case 3: // shrink by filter
+			left := rapid.IntRange(0, 6).Draw(t, "fleft")
+			c.Ops = append(c.Ops, Op{Op: "filter", Keep: perm("keep")[:left]})
+		case 4:
+			c.Ops = append(c.Ops, Op{Op: "map", K: rapid.SampledFrom(append([]string{"-"}, keys...)).Draw(t, "fail")})
+		default:
+			c.Ops = append(c.Ops, Op{Op: "each", K: rapid.SampledFrom(append([]string{"-"}, keys...)).Draw(t, "stop")},
+				Op{Op: "find", Keep: perm("match")[:rapid.IntRange(0, 3).Draw(t, "nm")]})
+		}
+	}
+	return c
+}
+
+// compareEvery: in a wide case the full comparison runs after the steps that end a phase only
+func judgedWide(c Case) *ev.Verdict {
+	grown, shrunk, hostile := 0, false, false
+	live := map[string]bool{}
+	for _, k := range c.Init {
+		live[k] = true
+	}
+	for _, op := range c.Ops {
+		switch op.Op {
+		case "set", "add":
+			live[op.K] = true
+			if len(live) > grown {
+				grown = len(live)
+			}
+		case "delete":
+			delete(live, op.K)
+		case "filter":
+			for k := range live {
+				if !in(op.Keep, k) {
+					delete(live, k)
+				}
+			}
+		}
+		if grown > 64 && len(live)*4 <= grown {
+			shrunk = true
+		}
+	}
+	for _, k := range keysOf(c) {
+		if in(hostileKeys, k) && k != "A" && k != "<" {
+			hostile = true
+		}
+	}
+	if grown > 64 {
+		ev.Class("wide", "more than 64 keys")
+	}
+	if shrunk {
+		ev.Class("wide", "grown beyond 64 then shrunk to a quarter or less")
+	}
+	if hostile {
+		ev.Class("wide", "keys with control / non-UTF-8 / non-BMP / JSON-special characters")
+	}
+	if shrunk || hostile {
+		b, _ := json.Marshal(c)
+		ev.NonTrivial("wide", string(b))
+		if ev.WantSample("wide") && len(b) < 3000 {
+			ev.Sample("wide", c)
+		}
+	}
+	return oracleSparse(c)
+}
+
 func registerAll() {
+	ev.Register("wide", judgedWide)
 	ev.Register("random", judged)
 	for _, n := range []string{"exhaustive-rule", "exhaustive-ast", "exhaustive-cons", "exhaustive-set"} {
 		ev.Register(n, oracle)
@@ -653,6 +815,11 @@ func registerAll() {
 func TestPropRandom(t *testing.T) {
 	registerAll()
 	ev.Rapid(t, "random", ev.N(8000, 20000), genCase, judged)
+}
+
+func TestPropWide(t *testing.T) {
+	registerAll()
+	ev.Rapid(t, "wide", ev.N(1500, 12000), genWide, judgedWide)
 }
 
 func TestPropRegressions(t *testing.T) {
